@@ -14,12 +14,12 @@ import (
 
 var mixC09 = Mix{Set: 26, Delete: 9, Get: 3, GetItem: 3, Exist: 1, MinMax: 2, Totals: 1, Visit: 4, Iter: 1, Len: 1,
 	Flush: 10, Evict: 4, Reopen: 4, Snapshot: 3, SnapRead: 5, SnapClose: 2, SnapRevert: 2, SnapOfSnap: 1, SnapMutate: 2,
-	SetCollNew: 2, SetCollExisting: 1, RemoveColl: 2, GetColl: 1, FlushRevert: 3, CollWrite: 2, CopyTo: 2, Close: 1}
+	SetCollNew: 2, SetCollExisting: 1, RemoveColl: 2, GetColl: 1, FlushRevert: 3, CollWrite: 2, CopyTo: 2, Close: 1, FaultyFlush: 2}
 
 func init() {
 	register(&Prop{
 		ID: "C09", Level: "exploration",
-		Rule: "the append-only monitor lives inside the instrumented StoreFile and judges EVERY WriteAt/Truncate the store issues, with the API call in progress as a tag: a write must start at or beyond the end of the last durable root record (maintained by the file object itself: a completed write that is exactly one root record raises it, Truncate lowers it), may only be issued by Flush, Collection.Write or the destination side of CopyTo, and a Truncate only by FlushRevert of the writable store and only to 0 or to the end of a root record still in the file. History cases: random histories over all operations (incl. snapshots and their FlushRevert / refused mutations, CopyTo, FlushRevert, Collection.Write, re-opens on files with unreferenced tails). Sweep cases: a flushed file is brought into each cache state {freshly re-opened, partially loaded, evicted, with unflushed changes pending} and EVERY read-only entry point is run (NewStore on the same file, GetCollectionNames/GetCollection, Get/GetItem/Exist/Min/Max/GetTotals, all visit kinds incl. Random and BlockEx, iterators, Len, EvictSomeItems, Snapshot and everything through it incl. its FlushRevert and refused mutations, CopyTo as source, Stats/AllocStats/MarshalJSON); after each one the file must have received zero writes/truncates and be byte-identical. Cross-check case (thorough tier only): a fixed history (flushes, re-open, read-only activity incl. snapshot FlushRevert and CopyTo source, FlushRevert, flush after revert) runs on a real os.File under strace -f; the pwrite64/ftruncate calls the kernel saw on that file must equal, in order, the WriteAt/Truncate calls at the StoreFile interface, no positionless write(2) may reach it, and tools/view (names / items) under strace must neither open it for writing nor change it; if ptrace is not permitted the case reports itself as skipped. Non-trivial = history with >= 2 flushes and a revert or re-open, or any sweep; distinct = op-trace hash / (sweep, state).",
+		Rule: "the append-only monitor lives inside the instrumented StoreFile and judges EVERY WriteAt/Truncate the store issues, with the API call in progress as a tag: a write must start at or beyond the end of the last durable root record (maintained by the file object itself: a completed write that is exactly one root record raises it, Truncate lowers it), may only be issued by Flush, Collection.Write or the destination side of CopyTo, and a Truncate only by FlushRevert of the writable store and only to 0 or to the end of a root record still in the file. History cases: random histories over all operations (incl. flushes that fail on one write - outright or torn - and are retried, snapshots and their FlushRevert / refused mutations, CopyTo, FlushRevert, Collection.Write, re-opens on files with unreferenced tails). Sweep cases: a flushed file is brought into each cache state {freshly re-opened, partially loaded, evicted, with unflushed changes pending} and EVERY read-only entry point is run (NewStore on the same file, GetCollectionNames/GetCollection, Get/GetItem/Exist/Min/Max/GetTotals, all visit kinds incl. Random and BlockEx, iterators, Len, EvictSomeItems, Snapshot and everything through it incl. its FlushRevert and refused mutations, CopyTo as source, Stats/AllocStats/MarshalJSON); after each one the file must have received zero writes/truncates and be byte-identical. Cross-check case (thorough tier only): a fixed history (flushes, re-open, read-only activity incl. snapshot FlushRevert and CopyTo source, FlushRevert, flush after revert) runs on a real os.File under strace -f; the pwrite64/ftruncate calls the kernel saw on that file must equal, in order, the WriteAt/Truncate calls at the StoreFile interface, no positionless write(2) may reach it, and tools/view (names / items) under strace must neither open it for writing nor change it; if ptrace is not permitted the case reports itself as skipped. Non-trivial = history with >= 2 flushes and a revert or re-open, or any sweep; distinct = op-trace hash / (sweep, state).",
 		Assumptions: []string{
 			"'for all call paths from the read-only entry points' is covered only as far as the sweeps and histories execute them; the evidence lists entry point x cache state combinations exercised",
 			"a root record whose write reported an error is not durable for this monitor",
